@@ -60,6 +60,32 @@ def programs(ctx):
             p.make(r, t, a, u, rnd.choice(['dec', 'frac']))
         p.sort(list(range(1, n + 1)))
     progs.append(p.d())
+    # quantities produced by allocate() (adjusted in place during dispersal) compared across units
+    for (t, u, others) in (('D', 'd', ['kd', 'bd']), ('D', 'kd', ['d', 'bd']), ('E', 'e', ['he', 'ke']), ('E', 'he', ['e'])):
+        p = Prog('c04alloc-%s-%s' % (t, u))
+        qu = units[u]['quantum']
+        for total in (10, 7, 11, 13, 100, -10):
+            for ratios in ([1, 1, 1], [1, 2, 4], [3, 3, 1, 1]):
+                p.make(1, t, qu * total, u)
+                regs = []
+                for i, r in enumerate(ratios[:3]):
+                    p.num(2 + i, F(r), 'int')
+                    regs.append(2 + i)
+                p.alloc(1, regs, True, zs=[5, 6])
+                for v in others:
+                    sv = units[v]['scale']
+                    for portion in (5, 6):
+                        # an equal value, and values one quantum of the other unit beside, in the other unit
+                        for k in (-1, 0, 1):
+                            p.convert(portion, v, 1)
+                            p.num(2, F(k), 'int')
+                            p.unit(3, v)
+                            p.bin('Mul', 2, 3, 3)          # k * unit v (rounded to v's grid)
+                            p.bin('Add', 1, 3, 1)
+                            for c in ('eq', 'lt', 'ge'):
+                                p.cmp(c, portion, 1)
+                                p.cmp(c, 1, portion)
+        progs.append(p.d())
     # units of one type compare by their scale
     p = Prog('c04units')
     for t in TYPES + ['N', 'Money']:
@@ -106,6 +132,7 @@ def run(ctx):
     from checks import bcalccheck
     bcalccheck.run_cases(ctx, bcalccheck.additive_cases(ctx, ('Cmp',)), 'catalogue-compare')
     bcalccheck.repo_suite(ctx, {'Cmp'})
+    bcalccheck.dep_canonical(ctx, bcalccheck.DEP['C04'])
 
 
 def replay(ctx, rp):
